@@ -36,20 +36,29 @@ fn to_expr(c: &CT) -> Option<SimpleExpr> {
     }
 }
 
+thread_local! {
+    /// when `not()` is called while a negated group is built: 0 = after the last member, 1 = before the first, 2 = after the first
+    /// (the negate flag is a property of the group, so the moment of the call must not matter)
+    static NOT_AT: std::cell::Cell<u8> = const { std::cell::Cell::new(0) };
+}
+
 /// build through the public API exactly as the recipe says
 fn build(c: &CT) -> Condition {
+    let mode = NOT_AT.with(|m| m.get());
     match c {
         CT::Atom(n) => Condition::all().add(atom(*n)),
         CT::Group { any, neg, ms } => {
             let mut g = if *any { Condition::any() } else { Condition::all() };
-            for m in ms {
+            let at = match mode { 0 => ms.len(), 1 => 0, _ => 1.min(ms.len()) };
+            for (i, m) in ms.iter().enumerate() {
+                if *neg && i == at { g = g.not(); }
                 g = match m {
                     None => g.add_option(None::<SimpleExpr>),
                     Some(CT::Atom(n)) => g.add(atom(*n)),
                     Some(x) => g.add(build(x)),
                 };
             }
-            if *neg { g.not() } else { g }
+            if *neg && at >= ms.len() { g.not() } else { g }
         }
     }
 }
@@ -126,7 +135,7 @@ fn word_pos(t: &[Tok], w: &str, from: usize) -> Option<usize> {
     t.iter().enumerate().skip(from).find(|(_, x)| matches!(x, Tok::Word(s) if s.eq_ignore_ascii_case(w))).map(|(i, _)| i)
 }
 
-const KINDS: [&str; 9] = ["select_where", "select_having", "select_having_no_group", "update_where", "delete_where", "join_on", "case_when", "conflict_target_where", "conflict_action_where"];
+const KINDS: [&str; 10] = ["update_from_where", "select_where", "select_having", "select_having_no_group", "update_where", "delete_where", "join_on", "case_when", "conflict_target_where", "conflict_action_where"];
 
 /// render the history on one statement kind; returns the predicate tokens (None = no predicate rendered)
 fn render(kind: &str, b: B, hist: &[CT]) -> Result<Option<Vec<Tok>>, String> {
@@ -151,6 +160,12 @@ fn render(kind: &str, b: B, hist: &[CT]) -> Result<Option<Vec<Tok>>, String> {
         }
         "update_where" => {
             let mut q = Query::update(); q.table(Alias::new("t")).value(Alias::new("x"), 1);
+            for c in hist { match c { CT::Atom(n) => { q.and_where(atom(*n)); } g => { q.cond_where(build(g)); } } }
+            to_string_q(b, &q)
+        }
+        "update_from_where" => {
+            // Postgres / SQLite: UPDATE .. SET .. FROM u WHERE <cond>; MySQL: UPDATE t JOIN u ON <cond> SET ..
+            let mut q = Query::update(); q.table(Alias::new("t")).value(Alias::new("x"), 1).from(Alias::new("u"));
             for c in hist { match c { CT::Atom(n) => { q.and_where(atom(*n)); } g => { q.cond_where(build(g)); } } }
             to_string_q(b, &q)
         }
@@ -192,6 +207,16 @@ fn render(kind: &str, b: B, hist: &[CT]) -> Result<Option<Vec<Tok>>, String> {
     let toks = reflex::lex(b, &sql).map_err(|e| format!("lex error {e} in {sql}"))?;
     let slice = |from: Option<usize>, to: Option<usize>| -> Option<Vec<Tok>> { from.map(|f| toks[f + 1..to.unwrap_or(toks.len())].to_vec()) };
     Ok(match kind {
+        // every predicate the statement carries counts: the join condition AND the WHERE clause
+        "update_from_where" if b == B::Mysql => {
+            let on = word_pos(&toks, "ON", 0); let set = word_pos(&toks, "SET", 0); let wh = word_pos(&toks, "WHERE", 0);
+            let p = |x: &str| Tok::Punct(x.to_string());
+            match (slice(on, set), slice(wh, None)) {
+                (Some(a), Some(c)) => { let mut v = vec![p("(")]; v.extend(a); v.extend([p(")"), Tok::Word("AND".into()), p("(")]); v.extend(c); v.push(p(")")); Some(v) }
+                (a, c) => a.or(c),
+            }
+        }
+        "update_from_where" => slice(word_pos(&toks, "WHERE", 0), None),
         "select_where" | "update_where" | "delete_where" => slice(word_pos(&toks, "WHERE", 0), None),
         "select_having" | "select_having_no_group" => slice(word_pos(&toks, "HAVING", 0), None),
         "join_on" => slice(word_pos(&toks, "ON", 0), None),
@@ -209,14 +234,21 @@ fn check_history(ctx: &mut Ctx, hist: &[CT], kinds: &[&str], backends: &[B]) {
     let k = hist.iter().map(natoms).max().unwrap_or(0);
     for kind in kinds {
         for &b in backends {
+          for mode in 0..3u8 {
+            if mode > 0 && !hist.iter().any(has_neg) { continue; }
+            NOT_AT.with(|m| m.set(mode));
             let r = render(kind, b, hist);
+            NOT_AT.with(|m| m.set(0));
             let (expect, parsed) = match &r {
                 Ok(None) => { if (*kind == "join_on" || *kind == "case_when") && hist.len() != 1 { continue; } if b == B::Mysql && kind.starts_with("conflict") { continue; } ("nopred".to_string(), None) }
                 Ok(Some(t)) => match parse_pred(t) { Some(p) => (format!("pred {}", show(&p)), Some(p)), None => (format!("unparsable {:?}", t), None) },
                 Err(e) => (format!("error {e}"), None),
             };
             let (lc, kc) = (line.clone(), kind.to_string());
-            ctx.case(line.clone(), expect.clone(), !hist.is_empty(), &|| format!("{} on {} [{}]", lc, kc, b.name()));
+            // the model is asked once per history; the other call orders of not() go through the oracle only
+            if mode == 0 { ctx.case(line.clone(), expect.clone(), !hist.is_empty(), &|| format!("{} on {} [{}]", lc, kc, b.name())); }
+            else { ctx.count("not_called_early"); }
+            let line = if mode == 0 { line.clone() } else { format!("{line} [not() called {}]", if mode == 1 { "before the first add" } else { "after the first add" }) };
             ctx.count(&format!("kind.{kind}"));
             // oracle: three-valued truth table of what was rendered vs the AND of what was supplied
             if hist.is_empty() {
@@ -241,9 +273,11 @@ fn check_history(ctx: &mut Ctx, hist: &[CT], kinds: &[&str], backends: &[B]) {
                     }
                 }
             }
+          }
         }
     }
 }
+fn has_neg(c: &CT) -> bool { match c { CT::Atom(_) => false, CT::Group { neg, ms, .. } => *neg || ms.iter().flatten().any(has_neg) } }
 
 /// all trees up to the given depth / width over `atoms` atoms (atoms reused round-robin)
 fn enum_trees(depth: u32, width: usize, next_atom: &mut usize, atoms: usize) -> Vec<CT> {
@@ -352,7 +386,7 @@ fn check_statement_model(ctx: &mut Ctx, t: &CT, b: B) {
 
 pub fn run(ctx: &mut Ctx) {
     let thorough = ctx.tier_thorough;
-    ctx.rule = format!("bounded-exhaustive: all condition trees of depth <= {} / width <= 2 (every any/all, every negate flag, empty groups, add_option(None) members) as 1-call histories on all 9 statement positions (SELECT WHERE / HAVING with and without GROUP BY, UPDATE, DELETE, JOIN ON, CASE WHEN, ON CONFLICT target/action WHERE) x 3 backends, all ordered pairs of depth-1 trees as 2-call histories, then {} random histories (<= 4 calls, depth <= 4, width <= 3). Every third tree (thorough: every tree) also as a whole statement against the Lean statement model's condition renderer (text, values). Each: rendered predicate parsed by an independent SQL predicate parser and compared with the model's expression tree, and its 3-valued truth table (all 3^k assignments, k <= 4 atoms) compared with the AND of the supplied conditions. Non-trivial = non-empty history; distinct by request.", 2, if thorough { 60000 } else { 6000 });
+    ctx.rule = format!("bounded-exhaustive: all condition trees of depth <= {} / width <= 2 (every any/all, every negate flag, empty groups, add_option(None) members) as 1-call histories on all 10 statement positions (SELECT WHERE / HAVING with and without GROUP BY, UPDATE, UPDATE .. FROM (MySQL: the JOIN .. ON form; every predicate the statement carries is conjoined), DELETE, JOIN ON, CASE WHEN, ON CONFLICT target/action WHERE) x 3 backends, every history with a negated group also with not() called before the first and after the first add (oracle only), all ordered pairs of depth-1 trees as 2-call histories, then {} random histories (<= 4 calls, depth <= 4, width <= 3). Every third tree (thorough: every tree) also as a whole statement against the Lean statement model's condition renderer (text, values). Each: rendered predicate parsed by an independent SQL predicate parser and compared with the model's expression tree, and its 3-valued truth table (all 3^k assignments, k <= 4 atoms) compared with the AND of the supplied conditions. Non-trivial = non-empty history; distinct by request.", 2, if thorough { 60000 } else { 6000 });
     if let Some(rp) = ctx.replay.clone() {
         // replay by history S-expression is not parsed back here; the random stream is deterministic by seed
         let _ = rp;
